@@ -328,7 +328,9 @@ func (c *c20Case) runRealServer() error {
 	c.registerOn(rec,
 		func(p lime.MessagePredicate, f lime.MessageHandlerFunc) { b.MessageHandlerFunc(p, f) },
 		func(p lime.NotificationPredicate, f lime.NotificationHandlerFunc) { b.NotificationHandlerFunc(p, f) },
-		func(p lime.RequestCommandPredicate, f lime.RequestCommandHandlerFunc) { b.RequestCommandHandlerFunc(p, f) },
+		func(p lime.RequestCommandPredicate, f lime.RequestCommandHandlerFunc) {
+			b.RequestCommandHandlerFunc(p, f)
+		},
 		func(p lime.ResponseCommandPredicate, f lime.ResponseCommandHandlerFunc) {
 			b.ResponseCommandHandlerFunc(p, f)
 		})
@@ -401,7 +403,9 @@ func (c *c20Case) runRealClient() error {
 	c.registerOn(rec,
 		func(p lime.MessagePredicate, f lime.MessageHandlerFunc) { b.MessageHandlerFunc(p, f) },
 		func(p lime.NotificationPredicate, f lime.NotificationHandlerFunc) { b.NotificationHandlerFunc(p, f) },
-		func(p lime.RequestCommandPredicate, f lime.RequestCommandHandlerFunc) { b.RequestCommandHandlerFunc(p, f) },
+		func(p lime.RequestCommandPredicate, f lime.RequestCommandHandlerFunc) {
+			b.RequestCommandHandlerFunc(p, f)
+		},
 		func(p lime.ResponseCommandPredicate, f lime.ResponseCommandHandlerFunc) {
 			b.ResponseCommandHandlerFunc(p, f)
 		})
